@@ -256,8 +256,16 @@ class Fx:
 
     # ------------------------------------------------------------------ statements
     def block(self, stmts, env, fi):
+        pushed = 0
         for s in stmts:
             self.stmt(s, env, fi)
+            # `if c: return / raise / continue / break` guards everything that follows in this block by `not c`
+            if isinstance(s, ast.If) and s.body and isinstance(s.body[-1], (ast.Return, ast.Raise, ast.Continue, ast.Break)) and \
+                    not (s.orelse and isinstance(s.orelse[-1], (ast.Return, ast.Raise, ast.Continue, ast.Break))):
+                self.guards.append((s.test, 'after-exit', fi))
+                pushed += 1
+        for _ in range(pushed):
+            self.guards.pop()
 
     def stmt(self, s, env, fi):
         if isinstance(s, ast.Assign):
